@@ -61,6 +61,21 @@ def run(ctx: Ctx):
                    '' if getattr(p, 'unchanged', False) else 'the line buffer / indentizer of the comment was modified')
         if getattr(p, 'unchanged', False) is False:
             o.replay = {'function': 'Comment.frame'}
+        # the comment can be extended after rendering and stays a comment
+        if kind == 'return':
+            from pyvc.values import RaiseSignal
+            a0 = p.impl_args[0]
+            try:
+                r = I.call(I.getattr_(a0, '__iadd__', p), [ops.mkstr([z3.String('in_more')])], {}, p)
+                same = r is a0 and r.cls is Comment
+            except RaiseSignal:
+                same = False
+            o3 = ctx.new(f'cpp_gen.Comment.__str__:path{k_}:extend', 'ensures', 'dznpy.text_gen.TextBlock.__iadd__',
+                         'comment += text after rendering extends the same Comment object')
+            ctx.settle(o3, PROVED if same else REFUTED, 'syntactic',
+                       '' if same else '+= returned another object than the comment itself')
+            if not same:
+                o3.replay = {'function': 'Comment', 'text': 'a'}
         if kind != 'return' or isinstance(val, str):
             continue
         # every rendered line starts with '//'
@@ -85,6 +100,8 @@ def run(ctx: Ctx):
 
 def make_replay(ctx, o):
     if getattr(o, 'replay', None):
+        if o.replay.get('function') == 'Comment':
+            return {'script': 'native/replay_text.py', 'input': o.replay}
         if 'shape' in o.replay:
             return {'script': 'native/replay_gen.py', 'input': dict(o.replay, property='C19')}
     return None
